@@ -153,6 +153,18 @@ def shard_kind(kind, tier):
                 cases.append(([new] + pre + ["mreset s0", "minput s0 %s" % a2, "mraw s0"], ["-"] + ["-"] * len(pre) + ["-", "-", t], {"nt": True}))
                 cases.append(([new] + pre + ["mraw s0", "mreset s0", "minput s0 %s" % a2, "mresult s0", "mreset s0", "minput s0 %s" % a2, "mraw s0"],
                               ["-"] + ["-"] * len(pre) + [None, "-", "-", t, "-", "-", t], {"nt": True}))
+    # the digest object handed to Hmac::new has a past but was reset through its public interface (fed and reset; fed, finalised and
+    # reset; for BLAKE2 also: created keyed / re-keyed, then reset to the plain hash): it is a fresh digest, so HMAC is unchanged
+    modes = ["reset", "result"] + (["b2key", "b2rekey"] if kind.startswith("blake2") else [])
+    for mode in modes:
+        for pl in (1, 7, B, B + 5):
+            if mode.startswith("b2") and pl > (64 if kind.startswith("blake2b") else 32):
+                continue
+            for kp, kl in ((5, 7), (7, B + 9)):
+                for ml in (0, 1, B + 1):
+                    t = obs_of(mac(pat(kp, 0, kl), pat(6, 0, ml)))
+                    cases.append((["mnew s0 hmac_used %s %s %s %s" % (kind, P(kp, 0, kl), P(4, 1, pl), mode), "minput s0 %s" % (P(6, 0, ml) if ml else "h:"), "mraw s0",
+                                   "mreset s0", "minput s0 %s" % (P(6, 0, ml) if ml else "h:"), "mresult s0"], ["-", "-", t, "-", "-", t], {"nt": True}))
     ck.run(cases, nontrivial=_nt)
     ck.stats.states = len(cases) + 1
     return ck.stats
